@@ -80,6 +80,8 @@ type c03Case struct {
 	Arg    uint32 `json:"arg"` // operand value: single argument, or lo | hi<<8 | bank<<16, or dst | src<<8
 	P      byte   `json:"tracked_p"`
 	Deep   bool   `json:"deep"`
+	// Listing: the emitter was created with listing generation on (what is emitted must not depend on it)
+	Listing bool `json:"listing,omitempty"`
 }
 
 // c03Emit calls the method on e with the operand value encoded in arg; returns the expected operand bytes.
@@ -166,13 +168,14 @@ type c03Runner struct {
 	p         byte
 	x         *cpuCtx
 	spec      map[string]c03Spec
+	listing   bool
 }
 
 func (rn *c03Runner) fresh(p byte) {
 	if rn.buf == nil {
 		rn.buf = make([]byte, 1<<16)
 	}
-	rn.e = asm.NewEmitter(rn.buf, false)
+	rn.e = asm.NewEmitter(rn.buf, rn.listing)
 	rn.e.SetBase(0x008000)
 	rn.e.AssumeSEP(asm.Flags(p & 0x30))
 	rn.p = p & 0x30
@@ -250,6 +253,23 @@ func (rn *c03Runner) check(name string, sp c03Spec, arg uint32, p byte, deep boo
 	if !deep {
 		return "", ""
 	}
+	// an emitter without a target buffer (dry run, used to measure code) must account for the same length
+	{
+		de := asm.NewEmitter(nil, rn.listing)
+		de.SetBase(0x008000)
+		de.AssumeSEP(asm.Flags(p & 0x30))
+		b, err := c03Bind(de, name)
+		if err != nil {
+			return "oracle-broken", err.Error()
+		}
+		dpc := de.PC()
+		if _, dpn, _ := c03Call(b, name, arg); dpn != nil {
+			return "unexplained:dry-run-refuses:" + name, fmt.Sprintf("%s: an emitter without a target buffer refused the call: %v", desc(), dpn)
+		}
+		if de.PC()-dpc != uint32(ilen) {
+			return "unexplained:dry-run-length:" + name, fmt.Sprintf("%s: an emitter without a target buffer advanced PC by %d, the instruction is %d bytes long", desc(), de.PC()-dpc, ilen)
+		}
+	}
 	// the library's own CPUs: trace line and instruction length
 	for i := 0; i < 2; i++ {
 		m := rn.x.ms[i]
@@ -300,7 +320,7 @@ func replayC03(raw json.RawMessage) (string, error) {
 	if !ok {
 		return "", fmt.Errorf("unclassified method %s", c.Method)
 	}
-	rn := &c03Runner{x: newCPUCtx(), spec: spec}
+	rn := &c03Runner{x: newCPUCtx(), spec: spec, listing: c.Listing}
 	sig, what := rn.check(c.Method, sp, c.Arg, c.P, true)
 	if sig == "" {
 		return "canonical encoding, length and decode agree", nil
@@ -397,13 +417,19 @@ func runC03(r *report.Run) {
 			}
 		}
 	}
-	ctxs := make([]*c03Runner, par.Workers())
+	ctxs := make([]*c03Runner, 2*par.Workers())
 	var evals, legalEvals int64
-	par.For(len(jobs), func(w, ji int) {
-		if ctxs[w] == nil {
-			ctxs[w] = &c03Runner{x: newCPUCtx(), spec: spec}
+	// every job twice: listing generation off and on
+	par.For(2*len(jobs), func(w, ji2 int) {
+		ji, listing := ji2/2, ji2%2 == 1
+		slot := 2 * w
+		if listing {
+			slot++
 		}
-		rn := ctxs[w]
+		if ctxs[slot] == nil {
+			ctxs[slot] = &c03Runner{x: newCPUCtx(), spec: spec, listing: listing}
+		}
+		rn := ctxs[slot]
 		j := jobs[ji]
 		sp := spec[j.name]
 		cnt, _ := c03ArgCount(probe, j.name)
@@ -414,8 +440,16 @@ func runC03(r *report.Run) {
 				nl++
 			}
 			if sig, what := rn.check(j.name, sp, arg, j.p, deep); sig != "" {
-				r.Violation(sig, what, c03Case{j.name, arg, j.p, deep})
+				r.Violation(sig, what, c03Case{j.name, arg, j.p, deep, listing})
 			}
+		}
+		if listing && !j.deep && cnt == 1<<24 && j.hi != 0 {
+			// listing on: the 24-bit methods get the three 2^16 planes instead of all 2^24 values
+			// (every listing line is kept by the emitter; what is emitted must not depend on the operand AND the mode)
+			if j.lo != 0 {
+				return
+			}
+			j.lo, j.hi = 0, 0
 		}
 		switch {
 		case j.deep:
@@ -450,9 +484,9 @@ func runC03(r *report.Run) {
 	if !ex {
 		r.Set("exhaustive_note", "quick tier: every operand value for all 8-/16-bit methods, all 2^24 values for JSL and LDA_long, and for the other long methods every value with at most two non-boundary bytes (three 2^16 planes x 6 boundary values); the thorough tier enumerates all 2^24 for every long method")
 	}
-	r.Set("rule", "every instruction method found by reflection x each of the 4 tracked (m,x) width states x every operand value of its operand type: emitted bytes == opcode from the independent ISA table followed by the little-endian operand (destination then source bank for MVN), Len and PC advance by the architectural length, an independent decoder maps the bytes back to the same mnemonic and mode; width-guarded immediates must be refused exactly when the tracked width disagrees; a deep pass over boundary operands additionally has both CPU packages disassemble the bytes (same mnemonic, operand digits and mode features) and Step over them (same length); non-trivial = the call is legal in that width state (an instruction is really emitted)")
-	r.Sample(c03Case{"LDA_long", 0x7EF340, 0x20, true})
-	r.Sample(c03Case{"MVN", 0x7F7E, 0x00, true})
-	r.Sample(c03Case{"LDA_imm16_w", 0x1234, 0x20, false})
+	r.Set("rule", "every instruction method found by reflection x each of the 4 tracked (m,x) width states x every operand value of its operand type, with listing generation off and on: emitted bytes == opcode from the independent ISA table followed by the little-endian operand (destination then source bank for MVN), Len and PC advance by the architectural length, an independent decoder maps the bytes back to the same mnemonic and mode; width-guarded immediates must be refused exactly when the tracked width disagrees; a deep pass over boundary operands additionally repeats the call on an emitter without a target buffer (PC must advance by the same length) and has both CPU packages disassemble the bytes (same mnemonic, operand digits and mode features) and Step over them (same length); non-trivial = the call is legal in that width state (an instruction is really emitted)")
+	r.Sample(c03Case{"LDA_long", 0x7EF340, 0x20, true, false})
+	r.Sample(c03Case{"MVN", 0x7F7E, 0x00, true, true})
+	r.Sample(c03Case{"LDA_imm16_w", 0x1234, 0x20, false, false})
 	r.Assume("method names promise their mnemonic and addressing mode (classification table of DESIGN Appendix D); methods found by reflection that the table does not know are listed as unclassified, not judged")
 }
